@@ -20,6 +20,13 @@ class Stub:
         self.calls.append(n)
         return self.feed()
 
+    # the other generators of `secrets`, defined on top of token_bytes exactly as the standard library does
+    def token_hex(self, n=None):
+        return self.token_bytes(n).hex()
+
+    def token_urlsafe(self, n=None):
+        return base64.urlsafe_b64encode(self.token_bytes(n)).rstrip(b'=').decode('ascii')
+
     def __getattr__(self, name):          # anything else of `secrets` being used is recorded as a foreign call
         def f(*a, **k):
             self.calls.append(name)
@@ -43,7 +50,10 @@ def issue(srv, start, feeds):
         bs.secrets = stub
         try:
             n = srv.sequence_number
-            i = srv.generate_id()
+            try:
+                i = srv.generate_id()
+            except Exception as e:
+                i = 'raised ' + type(e).__name__
         finally:
             bs.secrets = old
         out.append((r, n, i, srv.sequence_number, stub.calls))
